@@ -1,7 +1,7 @@
 (* Loop specification for the even=true branch of the translated Inverse53_1DWithParity (streaming form). *)
 From V Require Import Common.Base Tie.GoSem Gen.KernelsSlices_gen.
 Require V.DWT.DwtModel.
-From Scr Require Import DwtTieLib DwtTieFwdEven.
+From V Require Import Tie.DwtTieLib Tie.DwtTieFwdEven.
 
 Section InvEven.
 Variable d : list Z.
